@@ -196,7 +196,11 @@ def _check_image(ctx, d, ds, fr, reqs, pending):
                             dt = {8: 'u1', 16: '<u2', 32: '<u4'}[d['bits']]
                             if d['signed']:
                                 dt = dt.replace('u', 'i')
-                            impl = ('ok', list(a.astype(dt).tobytes()))
+                            if d.get('planar') == 1 and a.ndim == 3:
+                                # the model speaks about the STORED bytes: colour-by-plane; the decoded array is
+                                # (rows, cols, samples), so put the sample axis first again
+                                a = np.moveaxis(a, -1, 0)
+                            impl = ('ok', list(np.ascontiguousarray(a.astype(dt)).tobytes()))
                         else:
                             impl = ('err', _err_kind(val))
                     reqs.append((fn, args))
